@@ -24,17 +24,19 @@ SPECDIR = os.path.join(core.SPEC, "demo")
 CRASH_SIGNALS = (-4, -6, -7, -8, -11, 132, 134, 135, 136, 139)
 
 # ---------------------------------------------------------------- configurations
+# StartTicks are indices into MC_Demo!StartTick (1: 0, 2: 7, 3: -5, 4: 2147483600, 5: -2^31);
+# HiGaps are indices into MC_DemoHi!Gap (1: 0, 2: 1, 3: 125, 4: 250, 5: 251, 6: -3, 7: 2147483000).
 
 LO = {
-    "quick": dict(MaxChunks=3, Headers=[1, 2, 3, 4], StartTicks=[0, 7], Gaps=[1, 31, 32, 250, 251],
+    "quick": dict(MaxChunks=3, Headers=[1, 2, 3, 4], StartTicks=[1, 2], Gaps=[1, 31, 32, 250, 251],
                   sizes=[29, 30, 255, 256], msg=[(0, 0), (29, 1), (30, 2), (255, 3), (256, 0), (30, 0), (29, 3), (256, 1)]),
-    "thorough": dict(MaxChunks=4, Headers=[1, 2, 3, 4], StartTicks=[0, -5, 2147483600], Gaps=[1, 31, 32, 250, 251],
+    "thorough": dict(MaxChunks=4, Headers=[1, 2, 3, 4], StartTicks=[1, 3, 4, 5], Gaps=[1, 31, 32, 250, 251],
                      sizes=[29, 30, 255, 256, 65535],
-                     msg=[(0, 0)] + [(s, m) for s in (29, 30, 255, 256) for m in (0, 1, 2, 3)] + [(65535, 1), (65535, 0)]),
+                     msg=[(0, 0), (29, 0), (29, 3), (30, 1), (30, 2), (255, 2), (255, 3), (256, 0), (256, 1), (65535, 1)]),
 }
 HI = {
-    "quick": dict(MaxCalls=4, HiGaps=[0, 1, 125, 251], WorldIds=[1, 2, 5, 6, 8], MsgIds=[1, 3]),
-    "thorough": dict(MaxCalls=4, HiGaps=[-3, 0, 1, 125, 250, 251], WorldIds=[1, 2, 3, 5, 6, 7, 8], MsgIds=[1, 2, 3]),
+    "quick": dict(MaxCalls=4, HiGaps=[1, 2, 3, 5], WorldIds=[1, 2, 5, 6, 8], MsgIds=[1, 3]),
+    "thorough": dict(MaxCalls=4, HiGaps=[1, 2, 3, 4, 5, 6, 7], WorldIds=[1, 2, 5, 6, 7, 8], MsgIds=[1, 2, 3]),
 }
 LO_INV = "INVARIANTS RoundTrip HeaderSame TickSync MarkerRule SizeRule\nPROPERTIES StepRoundTrip HeaderStep\n"
 HI_INV = "VIEW View\nINVARIANTS SameObjects ReaderInSync TicksIncrease NonNegative DeltaNearKeyframe\nPROPERTIES RefusedInert StepSame\n"
@@ -93,6 +95,10 @@ TRACE = {"lo": ("DemoTrace.tla", "DemoTrace.cfg"), "hi": ("DemoHiTrace.tla", "De
 
 def _judge_trace(ctx, level, trace_path, label):
     ok, res = core.validate_trace(TRACE[level][0], TRACE[level][1], trace_path, cwd=SPECDIR, timeout=900)
+    nd = len(re.findall(r"TRACE DRIFT at event", res.out))
+    if nd and ok:
+        ctx.report_drift("%s: %d logged steps differ from the detailed specification only in the encoding chosen "
+                         "(header bytes / key-frame placement); the documented reader still returns what was written" % (label, nd))
     if ok:
         return True, None, res
     m = re.search(r"TRACE REJECTED at event\D+(\d+)", res.out)
@@ -153,8 +159,19 @@ def _walk(ctx, bins, level, cfg, depth, module, threads, timeout):
                    "(%d recordings fail this way)" % (level, m["step"], json.dumps(m["act"])[:300], json.dumps(m["expected"])[:400],
                                                       json.dumps(m["observed"])[:400], n),
                    {"level": level, "plan": m["plan"], "step": m["step"], "expected": m["expected"], "observed": m["observed"]})
-    core.log("[C15] direction A %s: paths=%d steps=%d mismatches=%d in %.0fs" % (
-        level, s["paths"], s["steps"], s["mismatch_count"], time.time() - t0))
+    # differences in the detailed fields only: TLC decides (property level) on one example per class
+    for ex in s.get("drift_examples", []):
+        rc2, out2 = core.run_harness([os.path.join(bins, "vh-demo"), "run", level], stdin=json.dumps(ex["plan"]) + "\n", timeout=300)
+        tp = os.path.join(ctx.workdir, "drift_%s_%d.ndjson" % (level, abs(hash(ex["key"])) % 100000))
+        open(tp, "w").write(out2)
+        ok, idx, r2 = _judge_trace(ctx, level, tp, "direction A %s, %d recordings (%s)" % (level, s["drift_keys"].get(ex["key"], 1), ex["key"]))
+        if not ok:
+            ctx.report(_norm("%s:encoding-not-readable:%s" % (level, ex["key"])),
+                       "%s level: the code's encoding differs from the specification and the documented reader does not read it "
+                       "back to what was written: expected %s, observed %s" % (level, json.dumps(ex["expected"])[:400], json.dumps(ex["observed"])[:400]),
+                       {"level": level, "plan": ex["plan"], "step": ex["step"]})
+    core.log("[C15] direction A %s: paths=%d steps=%d mismatches=%d drift=%d in %.0fs" % (
+        level, s["paths"], s["steps"], s["mismatch_count"], s.get("drift_count", 0), time.time() - t0))
     return s
 
 
@@ -198,7 +215,7 @@ def _direction_b(ctx, bins, tier):
 def _binding_selftest(ctx, bins):
     for level, field in (("lo", "h"), ("hi", "read")):
         path = os.path.join(ctx.workdir, "selftest_%s.ndjson" % level)
-        rc, events = _drive(bins, level, 777, 2, 40, path)
+        rc, events = _drive(bins, level, 777, 3, 60, path)
         if rc != 0 or len(events) < 20:
             raise core.ToolError("binding self-test: no %s trace" % level)
         ok, _, _ = _judge_trace(ctx, level, path, "self-test")
@@ -213,8 +230,30 @@ def _binding_selftest(ctx, bins):
         p1 = os.path.join(ctx.workdir, "selftest_%s_corrupt.ndjson" % level)
         open(p1, "w").write("\n".join(json.dumps(e) for e in bad) + "\n")
         ok1, idx1, _ = _judge_trace(ctx, level, p1, "self-test corrupt")
-        k2 = next(i for i, e in enumerate(events) if i > 4 and e["act"]["a"] in ("tick", "snap") and e["out"]["r"] == "ok"
-                  and any(x["act"]["a"] in ("tick", "snap") for x in events[i + 1:]))
+        # drop an event whose absence the specification must notice: (lo) a tick whose successor tick marker is an
+        # inline delta; (hi) an accepted snap that makes a later, otherwise acceptable, tick a refused one
+        k2 = None
+        if level == "lo":
+            ticks = [i for i, e in enumerate(events) if e["act"]["a"] == "tick"]
+            for a, b in zip(ticks, ticks[1:]):
+                if a > 1 and len(events[b]["out"].get("h", [])) == 1 and not any(x["act"]["a"] == "new" for x in events[a:b]):
+                    k2 = a
+                    break
+        else:
+            last_ok = None
+            prev_ok = None
+            for i, e in enumerate(events):
+                a = e["act"]
+                if a["a"] == "new":
+                    last_ok = prev_ok = None
+                elif a["a"] == "snap" and e["out"]["r"] == "ok":
+                    prev_ok, last_ok = last_ok, i
+                elif a["a"] == "snap" and e["out"]["r"] == "refused" and last_ok is not None and prev_ok is not None \
+                        and a["t"] > events[prev_ok]["act"]["t"]:
+                    k2 = last_ok
+                    break
+        if k2 is None:
+            raise core.ToolError("binding self-test (%s): no suitable event to drop" % level)
         p2 = os.path.join(ctx.workdir, "selftest_%s_drop.ndjson" % level)
         open(p2, "w").write("\n".join(json.dumps(e) for i, e in enumerate(events) if i != k2) + "\n")
         ok2, idx2, _ = _judge_trace(ctx, level, p2, "self-test drop")
